@@ -35,7 +35,8 @@ type Rule struct {
 // File is one abstract rule file.
 type File struct {
 	Present bool   `json:"present"`
-	Fdis    bool   `json:"fdis"` // "# pint file/disable ..." on the first line
+	Fdis    bool   `json:"fdis"`   // "# pint file/disable ..." on the first line
+	Broken  bool   `json:"broken"` // last line is not YAML: the file does not parse
 	Rules   []Rule `json:"rules"`
 }
 
@@ -101,7 +102,7 @@ func RenderSpans(f File) (string, []Span) {
 		w("# pint file/disable promql/fragile\n")
 	}
 	w("groups:\n- name: g\n")
-	if len(f.Rules) == 0 {
+	if len(f.Rules) == 0 && !f.Broken {
 		w("  rules: []\n")
 		return b.String(), spans
 	}
@@ -131,6 +132,9 @@ func RenderSpans(f File) (string, []Span) {
 			w("    annotations:\n      summary: s\n")
 		}
 		spans = append(spans, Span{first, line})
+	}
+	if f.Broken {
+		w("  - record: [\n")
 	}
 	return b.String(), spans
 }
@@ -320,7 +324,14 @@ type DepReport struct {
 	Deps  []Dep  `json:"deps"`
 }
 
+// ParseReport is one yaml/parse problem.
+type ParseReport struct {
+	Path string `json:"path"`
+	Line int    `json:"line"`
+}
+
 type CIResult struct {
+	Parse   []ParseReport
 	RC      int
 	Err     string // non-empty when pint produced no JSON report
 	Markers []Marker
@@ -392,6 +403,8 @@ func (r *Repo) RunCI(pint, cfgPath, base string, timeout time.Duration) CIResult
 				}
 			}
 			res.Deps = append(res.Deps, d)
+		case "yaml/parse":
+			res.Parse = append(res.Parse, ParseReport{jr.Path, first})
 		default:
 			res.Other = append(res.Other, jr.Reporter+" "+jr.Path+":"+strconv.Itoa(first)+" "+jr.Problem)
 		}
